@@ -10,7 +10,7 @@ from vf.tlc import MachineryError
 SLUG_MEMBERS = {
     'lower': 'azq', 'upper': 'AZQ', 'digit': '059', 'underscore': '_', 'hyphen': '-', 'space': ' ', 'tab': '\t\n\r\x0b\x0c\x1c\x1d\x1e\x1f',
     'nbsp': '  ', 'punct': '!.,/#@(*', 'accented': 'éÜñÇ', 'compat_letter': 'ﬁⅨᴬ',
-    'compat_digit': '①²⁵', 'nonascii_other': '中Ж→€',
+    'compat_digit': '①²⁵', 'nonascii_other': '中Ж→€', 'compat_punct_digit': '\u2474\u2488\u2475',
 }
 
 
@@ -129,6 +129,32 @@ def run(ctx):
         raise MachineryError('vacuity: %s' % counts)
     ctx.stage('codec-replay', cases=counts, calls=n)
     ctx.sample({'case': res.records[len(res.records) // 2]})
+    # the identity clauses hold whatever the process's own default encoding is (safe_encode / safe_decode take their
+    # default `incoming` from sys.stdin.encoding; the clauses below name none)
+    import io
+    import sys
+    saved_stdin = sys.stdin
+    idn = 0
+    try:
+        for enc in ('utf-8', 'latin-1', 'ascii', 'cp1252', None):
+            sys.stdin = io.TextIOWrapper(io.BytesIO(b''), encoding=enc) if enc else io.StringIO('')
+            for raw in (b'', b'abc', b'caf\xc3\xa9', b'\xe9', b'\xff\xfe', '日本'.encode('utf-8')):
+                idn += 1
+                r = outcome(encodeutils.to_utf8, raw)
+                if r[0] != 'ok' or type(r[1]) is not bytes or r[1] != raw:
+                    ctx.violation({'kind': 'to_utf8-bytes-identity', 'stdin': str(enc)}, {'bytes': repr(raw), 'stdin_encoding': enc, 'observed': repr(r)},
+                                  'to_utf8(%r) with sys.stdin.encoding=%s -> %s, specification: the same bytes' % (raw, enc, repr(r)[:80]))
+            for text in ('', 'abc', 'caf\xe9', '日本'):
+                idn += 1
+                r = outcome(encodeutils.safe_decode, text)
+                u = outcome(encodeutils.to_utf8, text)
+                if r[0] != 'ok' or r[1] != text or type(r[1]) is not str or u != ('ok', text.encode('utf-8')):
+                    ctx.violation({'kind': 'str-identity', 'stdin': str(enc)}, {'text': text, 'stdin_encoding': enc, 'observed': [repr(r), repr(u)]},
+                                  'safe_decode / to_utf8 of %r with sys.stdin.encoding=%s -> %s / %s' % (text, enc, repr(r)[:60], repr(u)[:60]))
+    finally:
+        sys.stdin = saved_stdin
+    ctx.cov['evaluations'] += idn
+    ctx.stage('identity-under-stdin-encodings', cases=idn)
     # table-driven encodings: branch contract + round trip through Python's codec (delegated)
     d = 0
     for enc in ('cp1252', 'shift_jis', 'koi8-r', 'utf-32', 'big5', 'iso8859-15'):
@@ -171,7 +197,8 @@ def run(ctx):
                     want += '-'
                 else:
                     ch = chars[o['src'] - 1]
-                    want += unicodedata.normalize('NFKD', ch).encode('ascii', 'ignore').decode('ascii').lower()
+                    folded = unicodedata.normalize('NFKD', ch).encode('ascii', 'ignore').decode('ascii').lower()
+                    want += re.sub(r'[^a-z0-9_]', '', folded)
             got = outcome(strutils.to_slug, text)
             z += 1
             ok = got == ('ok', want)
